@@ -458,8 +458,13 @@ def _neg(c):
 # ============================================================================ polynomials
 def to_poly(t, symname=None, opaque=None):
     """Term -> Poly (over Q).  Non-arithmetic sub-terms become symbols named by `symname(term)`
-    (default: rendered text).  Returns None if an operator cannot be represented."""
+    (default: rendered text); a sub-term that `symname` maps to a name different from its
+    rendered text is an *atom* and is not decomposed.  Returns None if an operator cannot be represented."""
     symname = symname or show
+    if symname is not show and not is_const(t):
+        nm = symname(t)
+        if nm != show(t):
+            return Poly.sym(nm)
     if is_const(t):
         v = t[1]
         if isinstance(v, bool):
@@ -476,7 +481,7 @@ def to_poly(t, symname=None, opaque=None):
         op = t[1]
         a, b = to_poly(t[2], symname, opaque), to_poly(t[3], symname, opaque)
         if a is None or b is None:
-            return None
+            return Poly.sym(symname(t)) if op not in ("+", "-", "*") else None
         if op == "+":
             return a + b
         if op == "-":
@@ -492,6 +497,8 @@ def to_poly(t, symname=None, opaque=None):
             for _ in range(int(b.const_value())):
                 r = r * a
             return r
+        if op in ("&", "|", "^", ">>", "%", "//") or op in ("<<", "**", "/"):
+            return Poly.sym(symname(t))  # not polynomial: an opaque atom
         return None
     if k == "un" and t[1] == "neg":
         a = to_poly(t[2], symname, opaque)
